@@ -197,7 +197,7 @@ def token_grep(modules=None) -> list[str]:
 DRIVER = "Driver.lean"
 
 
-def lean_eval(reqs: list[dict], timeout=1800) -> list[dict]:
+def lean_eval(reqs: list[dict], timeout=1800, strict=True) -> list[dict]:
     """pipes the requests to the model driver, returns the answers in order"""
     if not reqs:
         return []
@@ -213,9 +213,10 @@ def lean_eval(reqs: list[dict], timeout=1800) -> list[dict]:
         raise Infra(f"model driver answered {len(outs)} of {len(reqs)} requests\n{p.stderr[-2000:]}")
     byid = {o.get("id"): o for o in outs}
     res = [byid[i] for i in range(len(reqs))]
-    for r in res:
-        if not r.get("ok"):
-            raise Infra("model driver error: " + json.dumps(r)[:2000])
+    if strict:
+        for r in res:
+            if not r.get("ok"):
+                raise Infra("model driver error: " + json.dumps(r)[:2000])
     return res
 
 
@@ -317,6 +318,18 @@ def load_corpus(prop) -> list[dict]:
     return [json.loads(f.read_text()) for f in sorted(d.glob("*.json"))]
 
 
+LAST_ANSWERS: dict = {}
+
+
+def _call_opt_answer(fn, c, o):
+    """`tags` / `nontrivial` may take the model's answer as an optional third argument"""
+    import inspect
+
+    if len(inspect.signature(fn).parameters) >= 3:
+        return fn(c, o, LAST_ANSWERS.get(id(c)))
+    return fn(c, o)
+
+
 def judge_cases(mod, cases, obss):
     """returns list of verdict dicts: {status: ok|disagree|violation|reject_ok, clause, detail}"""
     reqs, idx = [], []
@@ -333,10 +346,13 @@ def judge_cases(mod, cases, obss):
         else:
             idx.append((i, len(reqs), None))
             reqs.append(r)
-    answers = lean_eval(reqs)
+    # a module that sets DRIVER_ERRORS_TO_JUDGE = True receives {"ok": false, "error": …} answers in `judge`
+    # (e.g. malformed implementation output the driver cannot parse is then a verdict, not an exit 2)
+    answers = lean_eval(reqs, strict=not getattr(mod, "DRIVER_ERRORS_TO_JUDGE", False))
     for i, start, k in idx:
         a = answers[start] if k is None else answers[start:start + k]
         verdicts[i] = mod.judge(cases[i], obss[i], a)
+        LAST_ANSWERS[id(cases[i])] = a
     return verdicts
 
 
@@ -482,9 +498,9 @@ def run_check(prop: str, tier: str, seed: int, replay: str | None = None) -> int
     nontrivial = set()
     dist: dict[str, int] = {}
     for c, o in zip(cases, obss):
-        for tag in mod.tags(c, o):
+        for tag in _call_opt_answer(mod.tags, c, o):
             dist[tag] = dist.get(tag, 0) + 1
-        if mod.nontrivial(c, o):
+        if _call_opt_answer(mod.nontrivial, c, o):
             nontrivial.add(json.dumps(c, sort_keys=True))
     samples = [{"case": c, "verdict": v} for c, v in list(zip(cases, verdicts))[:3]]
     coverage = {
